@@ -63,7 +63,7 @@ class C20:
               'fault_eintr_write', 'actor_mkdir_race', 'target_preexisting_truncated', 'dir_mode_one_input_failed', 'dir_mode_nested_skipped_without_r',
               'listing_order_non_sorted', 'locale_cannot_encode', 'relative_path_via_virtual_cwd', 'roundtrip_checked', 'actor_unlink',
               'interrupt_delivered', 'load_equal_checked', 'dump_equal_checked', 'converter_equal_checked', 'bom_input', 'crlf_input',
-              'flipped_byte_input', 'rerun_after_fault_exact', 'edited_in_place_same_size', 'big_input_over_24k', 'output_is_the_input_file', 'blank_line_in_input']
+              'flipped_byte_input', 'rerun_after_fault_exact', 'edited_in_place_same_size', 'big_input_over_24k', 'output_is_the_input_file', 'blank_line_in_input', 'dumped_a_loaded_document', 'output_directory_removed_externally']
 
     # ================================================================ plan
     def gen_plan(self, seed, index, tier):
@@ -138,7 +138,13 @@ class C20:
                     target = rng.choice(inputs)[0] + '.out'
                 opts = self._gen_opts(rng)
                 ops.append({'op': 'dump', 'doc': rng.randrange(ndocs), 'path': as_given(target), 'pathtype': rng.choice(['str', 'Path']), 'opts': opts,
-                            'prefill': rng.random() < 0.25})
+                            'prefill': rng.random() < 0.25,
+                            # the document is sometimes the one load() returned for an input file (whatever line ends that file has)
+                            'from_load': rng.choice(kern_inputs) if kern_inputs and rng.random() < 0.3 else None})
+                if tdir.startswith('out') and rng.random() < 0.2:
+                    # someone removes the output directory; the next dump into it must create it again
+                    ops.append({'op': 'rmtree', 'dir': posixpath.join(WORK, 'out')})
+                    ops.append(dict(ops[-2], prefill=False))
             elif kind == 'k2e' and kern_inputs:
                 src = rng.choice(kern_inputs)
                 out = posixpath.join(WORK, rng.choice(['out', 'in', 'conv']), posixpath.basename(src).rsplit('.', 1)[0] + rng.choice(EKERN_SUFFIXES))
@@ -461,6 +467,13 @@ class C20:
                     fs.put(op['path'], render_bytes(op))
                     log.emit('user', 'put', op['path'], digest_of(fs.get(op['path'])))
                     continue
+                if kind == 'rmtree':
+                    pre = op['dir'].rstrip('/') + '/'
+                    for q in [q for q in list(fs.nodes) if q == op['dir'] or q.startswith(pre)]:
+                        fs.nodes.pop(q, None)
+                    bump(probes, 'output_directory_removed_externally')
+                    log.emit('user', 'rmtree', op['dir'], None)
+                    continue
                 if kind == 'edit':
                     data = fs.get(op['path'])
                     if data:
@@ -532,7 +545,13 @@ class C20:
                     arg = Path(op['path']) if op['pathtype'] == 'Path' else op['path']
                     d = docs[op['doc'] % len(docs)]
                     try:
-                        kd, _ = kp.loads(d.render())
+                        if op.get('from_load') and fs.get(op['from_load']) is not None:
+                            kd, _ = kp.load(op['from_load'])
+                            bump(probes, 'dumped_a_loaded_document')
+                            if fault_state() != f0:
+                                continue            # the load itself was faulted: not this operation's subject
+                        else:
+                            kd, _ = kp.loads(d.render())
                     except Exception:
                         continue
                     o = real_opts(op['opts'])
